@@ -125,6 +125,12 @@ func (o *netOracle) run() []OracleFailure {
 			if p.Src != self && p.Dst != self && p.Relay != self {
 				o.fail("C13:uninvolved-chain-accepted", "receive accepted on a chain that is neither source, destination nor relay chain of the presented packet (relay field removed on the relay hop?)", d, idx)
 			}
+			if p.Relay == self && (p.Dst == self || p.Src == self) {
+				// the relay field names an end point of the packet: no committed packet looks like that
+				// (a chain has no light client of itself), so this is an edited relay field that made
+				// the executing chain pick another proving chain than the one the field names
+				o.fail("C13:relay-field-names-an-end-point", "receive accepted for a packet whose relay chain field names the executing end point itself", d, idx)
+			}
 			if !matchLoose {
 				o.fail("C01:unauthentic-recv", "receive accepted although the proving chain never committed a packet with this source, destination, sequence and data", d, idx)
 			} else if !match {
